@@ -42,6 +42,8 @@ def normalise(trace: list[dict]) -> list[dict]:
         if e["e"] == "deliver":
             terminal = False
             continue
+        if e["e"] in ("astart", "aend"):       # attempt hooks are not among the compared effects
+            continue
         if e["e"] == "emit" and e["name"] != "retry":
             terminal = True
         if e["e"] == "classify" and (terminal or (i + 1 < len(trace) and trace[i + 1]["e"] == "deliver")):
